@@ -217,6 +217,12 @@ pub struct Subset {
     desc: u8,
     end_mask: Option<[bool; 3]>,
     prefix: u32,
+    /// length of the extensible data sector appended to the ZIP64 end record (its size field is 44 + this)
+    #[serde(default)]
+    ext: u16,
+    /// local-header layout of data-descriptor entries (see EntrySpec::desc_mode)
+    #[serde(default)]
+    desc_mode: u8,
 }
 
 fn check_subset(s: &Subset) -> Result<(), String> {
@@ -226,6 +232,7 @@ fn check_subset(s: &Subset) -> Result<(), String> {
         e.zip64 = s.zip64;
         e.local_zip64 = s.local_zip64;
         e.desc = [Desc::None, Desc::Sig32, Desc::Sig64][s.desc as usize % 3];
+        e.desc_mode = s.desc_mode;
         let other = Extra { id: 0x5455, data: vec![3, 1, 2, 3, 4] };
         if s.zip64_after_others {
             e.central_extra_before.push(other);
@@ -235,6 +242,9 @@ fn check_subset(s: &Subset) -> Result<(), String> {
     }
     let mut spec = ArchiveSpec::plain(vec![a, b]);
     spec.zip64_end = s.end_mask;
+    if s.end_mask.is_some() {
+        spec.zip64_ext = (0..s.ext).map(|i| (i % 251) as u8 | 0x80).collect();
+    }
     spec.prefix = Content::Rep { byte: 0x11, len: s.prefix };
     let bt = build::build(&spec).map_err(|e| format!("harness: {e}"))?;
     super::c03::check_spec(&spec, &bt, &[4096])
@@ -517,7 +527,7 @@ pub fn run(ctx: &mut Ctx) {
         }
         v
     };
-    let total = (8 * 2 * 2 * 3 * masks.len() * 2) as u64;
+    let total = (8 * 2 * 2 * 3 * masks.len() * 2 * 3 * 3) as u64;
     ctx.enumerate::<Subset>(
         "subsets",
         total,
@@ -533,7 +543,11 @@ pub fn run(ctx: &mut Ctx) {
             k /= 3;
             let em = masks[k % masks.len()];
             k /= masks.len();
-            Subset { zip64: [z & 1 != 0, z & 2 != 0, z & 4 != 0], zip64_after_others: after, local_zip64: lz, desc, end_mask: em, prefix: if k == 1 { 1234 } else { 0 } }
+            let prefix = if k % 2 == 1 { 1234 } else { 0 };
+            k /= 2;
+            let ext = [0u16, 22, 300][k % 3];
+            k /= 3;
+            Subset { zip64: [z & 1 != 0, z & 2 != 0, z & 4 != 0], zip64_after_others: after, local_zip64: lz, desc, end_mask: em, prefix, ext, desc_mode: (k % 3) as u8 }
         },
         &|s: &Subset, info: &mut Info| {
             info.nontrivial = s.zip64.iter().any(|x| *x) || s.end_mask.is_some() || s.local_zip64;
